@@ -80,6 +80,9 @@ Proof.
   eexists. split; [reflexivity|]. unfold FaSane. fa_simpl. splits; auto. intros Hx; contradiction.
 Qed.
 
+Lemma FaSane_set_st r s : FaSane r -> s <> FNew -> FaSane (set_st r s).
+Proof. intros (A & B & C & D) Hs. unfold FaSane. fa_simpl. splits; auto. intros Hx; contradiction. Qed.
+
 Lemma fa_resume_sane ffuel mk : forall fuel r r' res, fa_resume fuel ffuel mk r = (r', res) ->
   FaSane r -> st r <> FNew -> FaSane r' /\ st r' <> FNew /\ (forall s, res <> RsPanic s).
 Proof.
@@ -94,7 +97,8 @@ Proof.
   destruct g as [|e|s]; [|inversion H; subst; splits; auto; [congruence|discriminate]|exfalso; apply (Hg s); reflexivity].
   destruct (fa_fill ffuel r1) as [r2 fr] eqn:E2. destruct (fa_fill_sane _ _ _ _ E2 S1) as [S2 Hst2].
   assert (Hn2 : st r2 <> FNew) by congruence.
-  destruct fr as [n|k|]; try (inversion H; subst; splits; auto; discriminate).
+  destruct fr as [n|k|]; [|inversion H; subst; splits; [apply FaSane_set_st; [exact S2|discriminate]|discriminate|discriminate]
+                          |inversion H; subst; splits; auto; discriminate].
   destruct (fa_search r2) as [r3 sr] eqn:E3. destruct (fa_search_sane _ _ _ E3 S2 Hn2) as (S3 & Hn3 & Hp3).
   destruct sr as [[|]|s]; [inversion H; subst; splits; auto; discriminate| |exfalso; apply (Hp3 s); reflexivity].
   apply (IH _ _ _ H S3 Hn3).
@@ -160,9 +164,6 @@ Proof.
   - destruct (fa_state_eqb (st r2) FFinished); [exact Hn2|discriminate].
   - exfalso; apply (Hp2 s); reflexivity.
 Qed.
-
-Lemma FaSane_set_st r s : FaSane r -> s <> FNew -> FaSane (set_st r s).
-Proof. intros (A & B & C & D) Hs. unfold FaSane. fa_simpl. splits; auto. intros Hx; contradiction. Qed.
 
 Theorem fa_next_sane fuel ffuel r r' o : fa_next fuel ffuel r = (r', o) -> FaSane r ->
   FaSane r' /\ (forall s, o <> OPanic s).
@@ -253,7 +254,8 @@ Proof.
   assert (S0 : FaSane r0).
   { unfold FaSane, r0. fa_simpl. cbn [length]. splits; auto; try (intros Hx; discriminate Hx). }
   destruct (fa_fill ffuel r0) as [r1 fr] eqn:E1. destruct (fa_fill_sane _ _ _ _ E1 S0) as [S1 _].
-  destruct fr; inversion H; subst; split; auto; discriminate.
+  destruct fr; inversion H; subst; split; auto; try discriminate.
+  apply FaSane_set_st; [exact S1|discriminate].
 Qed.
 
 Lemma fa_set_policy_sane r p : FaSane r -> FaSane (fa_set_policy r p).
